@@ -55,6 +55,8 @@ fn main() {
         "c01" => props::c01::run(&args),
         "c04" => props::c04::run(&args),
         "c05" => props::c05::run(&args),
+        #[cfg(cteenergymodel_verif)]
+        "c05trace" => props::c05trace::run(&args),
         "c11" => props::c11::run(&args),
         "c12" => props::c12::run(&args),
         "c13" => props::c13::run(&args),
